@@ -259,7 +259,12 @@ class Scalar(Generic[TScalar_co]):
 
     @classmethod
     def _unpickle(cls, args: tuple[Any, ...], kwargs: dict[str, Any]) -> Self:
-        return cls(*args, **kwargs)
+        had_units = UNIT_DESCRIPTION in kwargs["extended_properties"]
+        scalar = cls(*args, **kwargs)
+        if not had_units:
+            # The constructor adds an empty units entry, which the pickled scalar did not have.
+            del scalar._extended_properties[UNIT_DESCRIPTION]
+        return scalar
 
     def __repr__(self) -> str:
         """Return repr(self)."""
